@@ -455,7 +455,9 @@ func (w *inotify) handleEvent(inEvent *unix.InotifyEvent, buf *[65536]byte, offs
 		}
 
 		err := w.remove(watch.path)
-		if err != nil && !errors.Is(err, ErrNonExistentWatch) {
+		// EINVAL means the kernel has already dropped the watch (the file was
+		// deleted after it was moved), which is what we wanted to achieve.
+		if err != nil && !errors.Is(err, ErrNonExistentWatch) && !errors.Is(err, unix.EINVAL) {
 			if !w.sendError(err) {
 				return Event{}, false
 			}
